@@ -10,117 +10,9 @@
 (* oracles, defined by structural recursion on the two definitions and     *)
 (* independent of the reader machine Wire!Dec.                             *)
 (***************************************************************************)
-EXTENDS WireVals, Json
+EXTENDS EvoOps, Json
 
 CONSTANT Tier
-
-(* ------------------------------------------------------------------ *)
-(* The program at version i                                            *)
-(* ------------------------------------------------------------------ *)
-RECURSIVE DefAt(_, _)
-\* indices of the fields of (ts, fa) that exist in the source at version i
-\* the version in which the field first existed (a converted field exists since the start of its old type's range)
-Born(a) == IF HasAs(a) THEN a.af ELSE a.from
-Kept(fa, i) == SelectSeq([k \in 1..Len(fa) |-> k], LAMBDA k : Born(fa[k]) <= i)
-
-FieldAt(ty, a, i) ==
-    \* returns <<type, attr>> of the field as declared at version i  (Born(a) <= i)
-    IF HasAs(a) /\ i <= a.at
-    THEN \* before the conversion: the field still has its old type, no version attribute beyond its start
-         <<DefAt(a.asty, i), FA(a.af, INF, "no", a.df, FALSE, 1, 0, P("unit"))>>
-    ELSE IF a.to < i
-    THEN <<DefAt(ty, i), a>>                                   \* already removed: as in D
-    ELSE <<DefAt(ty, i), FA(a.from, INF, "no", a.df, a.ig, a.af, a.at, a.asty)>>   \* still live
-
-DefAt(t, i) ==
-    CASE t.k = "struct" ->
-            LET ks == Kept(t.fa, i) IN
-            T("struct", t.s, t.n, [j \in 1..Len(ks) |-> FieldAt(t.ts[ks[j]], t.fa[ks[j]], i)[1]],
-                                  [j \in 1..Len(ks) |-> FieldAt(t.ts[ks[j]], t.fa[ks[j]], i)[2]])
-      [] t.k = "enum" /\ t.n = 0 ->
-            LET vs == SelectSeq(t.ts, LAMBDA var : var.n <= i) IN
-            T("enum", t.s, 0, [j \in 1..Len(vs) |-> DefAt(vs[j], i)], <<>>)
-      [] t.k = "var" ->
-            LET ks == Kept(t.fa, i) IN
-            T("var", t.s, t.n, [j \in 1..Len(ks) |-> FieldAt(t.ts[ks[j]], t.fa[ks[j]], i)[1]],
-                               [j \in 1..Len(ks) |-> FieldAt(t.ts[ks[j]], t.fa[ks[j]], i)[2]])
-      [] t.k \in {"vec", "arr", "opt", "res", "box", "tup", "map"} ->
-            T(t.k, t.s, t.n, [j \in 1..Len(t.ts) |-> DefAt(t.ts[j], i)], t.fa)
-      [] OTHER -> t
-
-(* ------------------------------------------------------------------ *)
-(* Load(D, i, j, v): what the program at version j must obtain from a  *)
-(* value v of the program at version i  (i <= j)                        *)
-(* ------------------------------------------------------------------ *)
-RECURSIVE Load(_, _, _, _)
-\* position of D-field k inside the version-i source (0 if absent)
-PosAt(fa, k, i) == IF Born(fa[k]) > i THEN 0 ELSE Cardinality({m \in 1..k : Born(fa[m]) <= i})
-
-LoadFields(ts, fa, i, j, vs) ==
-    LET kj == Kept(fa, j) IN
-    [m \in 1..Len(kj) |->
-        LET k == kj[m]  a == fa[k] IN
-        IF a.to < j THEN Unit                                   \* removed in the loading program
-        ELSE IF Born(a) > i THEN                                 \* added after the file was written
-             (IF a.df = "default" THEN DefaultOf(DefAt(ts[k], j)) ELSE WitnessOf(DefAt(ts[k], j)))
-        ELSE IF HasAs(a) /\ i <= a.at /\ j > a.at THEN Conv(vs[PosAt(fa, k, i)], ts[k])   \* converted in between
-        ELSE IF HasAs(a) /\ j <= a.at THEN Load(a.asty, i, j, vs[PosAt(fa, k, i)])
-        ELSE Load(ts[k], i, j, vs[PosAt(fa, k, i)])]
-
-Load(t, i, j, v) ==
-    CASE t.k = "struct" -> L(LoadFields(t.ts, t.fa, i, j, v.vs))
-      [] t.k = "enum" /\ t.n = 0 ->
-            \* variant indices are stable (variants are only appended)
-            LET var == SelectSeq(t.ts, LAMBDA x : x.n <= i)[v.n + 1] IN
-            EV(v.n, LoadFields(var.ts, var.fa, i, j, v.vs))
-      [] t.k \in {"vec", "arr"} -> L([m \in 1..Len(v.vs) |-> Load(t.ts[1], i, j, v.vs[m])])
-      [] t.k = "opt" -> IF v.n = 0 THEN None ELSE Some(Load(t.ts[1], i, j, v.vs[1]))
-      [] t.k = "res" -> IF v.n = 1 THEN OkV(Load(t.ts[1], i, j, v.vs[1])) ELSE ErrV(Load(t.ts[2], i, j, v.vs[1]))
-      [] t.k = "box" -> Load(t.ts[1], i, j, v)
-      [] t.k = "tup" -> L([m \in 1..Len(t.ts) |-> Load(t.ts[m], i, j, v.vs[m])])
-      [] t.k = "map" -> L([m \in 1..Len(v.vs) |-> Load(t.ts[IF m % 2 = 1 THEN 1 ELSE 2], i, j, v.vs[m])])
-      [] OTHER -> v
-
-(* ------------------------------------------------------------------ *)
-(* Down(D, n, k, v): what the program at version k must obtain when    *)
-(* the program at version n writes v at data version k  (k <= n)        *)
-(* ------------------------------------------------------------------ *)
-RECURSIVE Down(_, _, _, _)
-DownFields(ts, fa, n, k, vs) ==
-    LET kk == Kept(fa, k) IN
-    [m \in 1..Len(kk) |->
-        LET q == kk[m]  a == fa[q] IN
-        IF a.to < k THEN Unit                                    \* removed already at k
-        ELSE IF a.to < n THEN DefaultOf(DefAt(ts[q], k))          \* AbiRemoved since: constructed value
-        ELSE Down(ts[q], n, k, vs[PosAt(fa, q, n)])]
-Down(t, n, k, v) ==
-    CASE t.k = "struct" -> L(DownFields(t.ts, t.fa, n, k, v.vs))
-      [] t.k = "enum" /\ t.n = 0 ->
-            LET var == SelectSeq(t.ts, LAMBDA x : x.n <= n)[v.n + 1] IN
-            EV(v.n, DownFields(var.ts, var.fa, n, k, v.vs))
-      [] t.k \in {"vec", "arr"} -> L([m \in 1..Len(v.vs) |-> Down(t.ts[1], n, k, v.vs[m])])
-      [] t.k = "opt" -> IF v.n = 0 THEN None ELSE Some(Down(t.ts[1], n, k, v.vs[1]))
-      [] t.k = "box" -> Down(t.ts[1], n, k, v)
-      [] t.k = "tup" -> L([m \in 1..Len(t.ts) |-> Down(t.ts[m], n, k, v.vs[m])])
-      [] t.k = "res" -> IF v.n = 1 THEN OkV(Down(t.ts[1], n, k, v.vs[1])) ELSE ErrV(Down(t.ts[2], n, k, v.vs[1]))
-      [] t.k = "map" -> L([m \in 1..Len(v.vs) |-> Down(t.ts[IF m % 2 = 1 THEN 1 ELSE 2], n, k, v.vs[m])])
-      [] OTHER -> v
-
-\* a value of the version-n program may be written at version k only if every enum value in it
-\* uses a variant that exists at k  (the documented panic otherwise; C18 excludes it)
-RECURSIVE Writable(_, _, _)
-Writable(t, v, k) ==
-    CASE t.k = "enum" /\ t.n = 0 ->
-            /\ t.ts[v.n + 1].n <= k
-            /\ \A m \in 1..Len(v.vs) : t.ts[v.n + 1].fa[m].rm # "no" \/ Writable(t.ts[v.n + 1].ts[m], v.vs[m], k)
-      [] t.k = "struct" -> \A m \in 1..Len(v.vs) : t.fa[m].rm # "no" \/ t.fa[m].ig \/ Writable(t.ts[m], v.vs[m], k)
-      [] t.k \in {"vec", "arr"} -> \A m \in 1..Len(v.vs) : Writable(t.ts[1], v.vs[m], k)
-      [] t.k = "opt" -> v.n = 0 \/ Writable(t.ts[1], v.vs[1], k)
-      [] t.k = "box" -> Writable(t.ts[1], v, k)
-      [] t.k = "tup" -> \A m \in 1..Len(t.ts) : Writable(t.ts[m], v.vs[m], k)
-      [] t.k = "res" -> Writable(t.ts[IF v.n = 1 THEN 1 ELSE 2], v.vs[1], k)
-      [] t.k = "map" -> \A m \in 1..Len(v.vs) : Writable(t.ts[IF m % 2 = 1 THEN 1 ELSE 2], v.vs[m], k)
-      [] OTHER -> TRUE
 
 (* ------------------------------------------------------------------ *)
 (* Histories                                                           *)
